@@ -52,7 +52,14 @@ def _huge_case(rng: random.Random):
             'single': []}
 
 
-RATIONAL_TIMES = ['T0/3', '2*T0/3', 'T1/5', 'T0/7', '3*T1/7', 'T0/3 + T1/5', 'T0/6', 'T1/3']
+RATIONAL_TIMES = ['T0/3', '2*T0/3', 'T1/5', 'T0/7', '3*T1/7', 'T0/3 + T1/5', 'T0/6', 'T1/3',
+                  'T0/4', 'T0 + T1/2', '(T0 + T1)/4', '3*T1/8', 'T1/2 + T0/5']
+RATIONAL_TABLES = [('T0/3', '2*T0/3'), ('T1/5', 'T1/5 + T0/3'), ('T0/7', 'T0/3'), ('T0/6', 'T0/3'),
+                   ('T0/4', 'T0/2'), ('T1/8', 'T1/8 + T0/4'), ('T1/2', 'T1/2 + T0/4')]
+# short decimals as they come out of numpy.linspace(0.1, 0.5, 5).round(1) and friends (none of them dyadic but 0.5)
+DECIMAL_VALUES = [0.1, 0.2, 0.3, 0.4, 0.5, 0.7, 1.2, 2.35, 0.05]
+# generator shapes beyond the default stream, see notes/C04.md "Seeded changes"
+GEN = {'int_chan_p': 0.1, 'typed_p': 0.4, 'reuse_p': 0.15, 'nest_wrap_p': 0.1}
 
 
 def rational_case(rng: random.Random):
@@ -63,6 +70,15 @@ def rational_case(rng: random.Random):
     repetition counts up to 10^12. Program-side durations must be the exact rationals."""
     values = {'T0': rng.choice([1, 2, 3, 5]), 'T1': rng.choice([1, 2, 4, 7]), 'n': rng.choice([1, 2, 3]),
               'big': rng.choice([10 ** 6, 10 ** 9, 10 ** 12, 3 * 10 ** 11 + 7])}
+    # half of the cases: short decimal time parameters, handed over as python float / numpy.float64 / TimeType (and the
+    # integers as int / numpy.int64): a float of either kind means its shortest decimal representation, so the exact
+    # durations do not depend on the type
+    typed = rng.random() < 0.5
+    if typed:
+        if rng.random() < 0.8:
+            values['T0'] = rng.choice(DECIMAL_VALUES)
+        if rng.random() < 0.6:
+            values['T1'] = rng.choice(DECIMAL_VALUES)
 
     def texpr():
         return rng.choice(RATIONAL_TIMES)
@@ -76,7 +92,7 @@ def rational_case(rng: random.Random):
             used.append(d)
             return {'k': 'func', 'ch': 'A', 'dur': d, 'expr': rng.choice(['1 + t', '0.5', 'T0*t']), 'meas': [], 'cons': []}
         if k < 0.9:
-            a, b = rng.choice([('T0/3', '2*T0/3'), ('T1/5', 'T1/5 + T0/3'), ('T0/7', 'T0/3'), ('T0/6', 'T0/3')])
+            a, b = rng.choice(RATIONAL_TABLES)
             entries = [['0', '1', 'hold'], [a, '2', rng.choice(['hold', 'linear', 'jump'])]]
             if rng.random() < 0.6:
                 entries.append([b, '0', rng.choice(['hold', 'linear'])])
@@ -108,8 +124,11 @@ def rational_case(rng: random.Random):
 
     spec = tree(rng.choice([1, 2, 3]))
     pt = ptgen.build(spec)
-    return {'spec': spec, 'params': {k: v for k, v in values.items() if k in pt.parameter_names}, 'cm': {}, 'mm': None,
+    case = {'spec': spec, 'params': {k: v for k, v in values.items() if k in pt.parameter_names}, 'cm': {}, 'mm': None,
             'single': [], 'share': rng.random() < 0.7, 'tdur_after': rng.random() < 0.4}
+    if typed:
+        case['ptypes'] = ptgen.draw_ptypes(rng, case['params'])
+    return case
 
 
 def run(ctx: core.Ctx):
@@ -119,7 +138,11 @@ def run(ctx: core.Ctx):
                 'evaluation of the template duration only within 2^-40 relative; (3) repetition counts 10^6..10^12 around '
                 'short pieces; (4) non-dyadic rational constants (/3, /5, /7) in table entry times and function durations '
                 'with integer parameters, template-side quantities evaluated numerically before or after create_program, '
-                'shared expression objects between windows and entry times, counts up to 10^12 - program side exact. Plus all nestings of depth <= 3 over two atoms and a malformed stream. Non-trivial = a '
+                'shared expression objects between windows and entry times, counts up to 10^12 - program side exact; half of '
+                'these cases with short non-dyadic decimal parameters handed over as python float / numpy.float64 / TimeType '
+                '(integers as int / numpy.int64): the exact durations do not depend on the type that carries a value, a '
+                'float of either kind means its shortest decimal representation; typed parameter values in 40% of streams '
+                '(1) and (2) as well. Plus all nestings of depth <= 3 over two atoms and a malformed stream. Non-trivial = a '
                 'program is produced from a tree with more than one node')
     ctx.assumptions = [
         'TimeType.from_float turns a float into the rational of its shortest decimal representation (C14)',
@@ -134,7 +157,7 @@ def run(ctx: core.Ctx):
     descs = [ck.desc(family='exhaustive', seed=i, spec=s) for i, s in enumerate(ptgen.exhaustive_specs(3))]
     ctx.exhaustive_spaces.append('all nestings of depth <= 3 over two atoms: %d trees' % len(descs))
     base = ctx.fork('dyadic').getrandbits(48)
-    descs += [ck.desc(family='random', seed=base + i, depth=depth, label='dyadic', gen={'measure_p': 0.1})
+    descs += [ck.desc(family='random', seed=base + i, depth=depth, label='dyadic', gen=dict(GEN, measure_p=0.1))
               for i in range(ctx.n(900, 20000))]
     base = ctx.fork('malformed').getrandbits(48)
     descs += [ck.desc(family='malformed', seed=base + i) for i in range(ctx.n(100, 2000))]
@@ -143,7 +166,7 @@ def run(ctx: core.Ctx):
     ckd = checker(ctx, exact=False)
     base = ctx.fork('decimal').getrandbits(48)
     descs = [ckd.desc(family='random', seed=base + i, depth=depth, stream='decimal', label='decimal',
-                      gen={'measure_p': 0.0}) for i in range(ctx.n(500, 10000))]
+                      gen=dict(GEN, measure_p=0.0)) for i in range(ctx.n(500, 10000))]
     base = ctx.fork('huge').getrandbits(48)
     descs += [ckd.desc(family='custom', make=huge_case, seed=base + i, label='huge-counts', skip_spec=True)
               for i in range(ctx.n(150, 3000))]
